@@ -27,6 +27,7 @@ type t3t struct {
 	val   *t3t
 	sname string
 	n     int
+	world string // [t7] for db / tx / bucket / cursor values: the Bolt world they belong to ("" = "$bolt")
 }
 
 var (
@@ -125,6 +126,8 @@ func (t *t3t) zero() (string, error) {
 		return fmt.Sprintf("({} : %s)", t.lean), nil
 	case "opt", "db", "tx", "bucket":
 		return fmt.Sprintf("(none : %s)", t.lean), nil
+	case "waitgroup": // [t7]
+		return "({} : Go.T7.WaitGroup)", nil
 	}
 	return "", lostf("zero value of %s", t.lean)
 }
@@ -185,6 +188,7 @@ type t3sig struct {
 	params   []*t3t
 	paramOut []bool
 	results  []*t3t
+	rngs     []lparamT3 // [t7] map enumerations the function takes in front of its worlds
 }
 
 type t3ctx struct {
@@ -210,6 +214,10 @@ type t3ctx struct {
 	names     map[string]int // Lean names handed out (for shadowing)
 	usedH     bool
 	usedX     bool
+	t7        bool               // [t7] a target of translate_t7.go: the additional forms are on
+	t7dual    bool               // [t7] BigIndexWriter.tempDB / tempTx live in the world $tbolt
+	t7opened  map[string]*t3bind // [t7] worlds that bbolt.Open creates inside the function
+	t7inl     map[string]bool    // [t7] helper functions being translated in place
 }
 
 type lparamT3 struct{ lean, typ string }
@@ -434,6 +442,9 @@ func (c *t3ctx) goType(e ast.Expr) (*t3t, error) {
 			}
 		}
 	}
+	if c.t7 && s == "sync.WaitGroup" { // [t7]
+		return t7waitGroup, nil
+	}
 	return nil, lostf("type %s is outside the subset", s)
 }
 
@@ -456,6 +467,7 @@ func (c *t3ctx) fieldType(sname, f string) (*t3t, error) {
 			if !ok || want != t.lean {
 				return nil, lostf("field %s.%s has type %s (%s), the prelude models %q", sname, f, c.tr.src(fl.Type), t.lean, want)
 			}
+			t = c.t7fieldWorld(sname, f, t) // [t7] the temporary database of a BigIndexWriter is a world of its own
 			return t, nil
 		}
 	}
@@ -473,6 +485,9 @@ type t3v struct {
 func (c *t3ctx) conv(v t3v, to *t3t) (t3v, error) {
 	f := v.typ
 	if f.kind == to.kind && f.lean == to.lean {
+		if t7boltOf(f) != t7boltOf(to) { // [t7] a handle of one database is not a handle of the other
+			return t3v{}, lostf("a %s of the database %s used as one of %s", f.kind, strings.TrimPrefix(t7boltOf(f), "$"), strings.TrimPrefix(t7boltOf(to), "$"))
+		}
 		return v, nil
 	}
 	switch {
@@ -826,7 +841,7 @@ func (c *t3ctx) composite(e *ast.CompositeLit, sc t3sc) (t3v, error) {
 		}
 		return t3v{text: "Go.T3.makeMap", typ: t}, nil
 	}
-	if ln, ok := t3structLean[ts]; ok && ts != "schema" {
+	if ln, ok := t3structLean[ts]; ok && (ts != "schema" || c.t7 && c.mode == "writer") { // [t7] &schema{…} of the constructors
 		var parts []string
 		for _, el := range e.Elts {
 			kv, ok := el.(*ast.KeyValueExpr)
@@ -950,6 +965,11 @@ func (c *t3ctx) binary(e *ast.BinaryExpr, sc t3sc) (t3v, error) {
 // calls without effect on any world
 func (c *t3ctx) pureCall(e *ast.CallExpr, sc t3sc) (t3v, error) {
 	n := len(e.Args)
+	if c.t7 { // [t7] fmt.Errorf("… %d", n)
+		if v, ok, err := c.t7pure(e, sc); ok || err != nil {
+			return v, err
+		}
+	}
 	switch {
 	case c.builtin(e.Fun, sc, "len") && n == 1:
 		x, err := c.expr(e.Args[0], sc)
@@ -1067,7 +1087,7 @@ func (c *t3ctx) pureCall(e *ast.CallExpr, sc t3sc) (t3v, error) {
 			return t3v{}, err
 		}
 		if tx.typ.kind == "tx" {
-			bolt, err := c.world(sc, "$bolt")
+			bolt, err := c.world(sc, t7boltOf(tx.typ)) // [t7] was "$bolt"
 			if err != nil {
 				return t3v{}, err
 			}
@@ -1075,7 +1095,7 @@ func (c *t3ctx) pureCall(e *ast.CallExpr, sc t3sc) (t3v, error) {
 			if err != nil {
 				return t3v{}, err
 			}
-			return t3v{text: fmt.Sprintf("(Go.T3.txBucket %s %s %s)", bolt.lean, tx.text, nm.text), typ: t3bucket}, nil
+			return t3v{text: fmt.Sprintf("(Go.T3.txBucket %s %s %s)", bolt.lean, tx.text, nm.text), typ: t7in(t3bucket, tx.typ)}, nil // [t7] typ was t3bucket
 		}
 		return t3v{}, lostf(".Bucket on %s", tx.typ.kind)
 	}
@@ -1085,7 +1105,7 @@ func (c *t3ctx) pureCall(e *ast.CallExpr, sc t3sc) (t3v, error) {
 			return t3v{}, err
 		}
 		if bk.typ.kind == "bucket" {
-			bolt, err := c.world(sc, "$bolt")
+			bolt, err := c.world(sc, t7boltOf(bk.typ)) // [t7] was "$bolt"
 			if err != nil {
 				return t3v{}, err
 			}
@@ -1103,7 +1123,7 @@ func (c *t3ctx) pureCall(e *ast.CallExpr, sc t3sc) (t3v, error) {
 			return t3v{}, err
 		}
 		if bk.typ.kind == "bucket" {
-			return t3v{text: fmt.Sprintf("(Go.T3.bucketCursor %s)", bk.text), typ: t3cursor}, nil
+			return t3v{text: fmt.Sprintf("(Go.T3.bucketCursor %s)", bk.text), typ: t7in(t3cursor, bk.typ)}, nil // [t7] typ was t3cursor
 		}
 		return t3v{}, lostf(".Cursor on %s", bk.typ.kind)
 	}
@@ -1201,6 +1221,7 @@ type t3out struct {
 	typ   *t3t
 	pat   string
 	binds []*t3bind
+	w     string // [t7] kind "world": the name of a world this effect brings into being ("" = an existing one)
 }
 
 // an effectful (or multi-result) right-hand side: a Lean term (lines) evaluating to the tuple of `outs`
@@ -1285,6 +1306,11 @@ func (c *t3ctx) effect(e ast.Expr, sc t3sc) (*t3eff, error) {
 	}
 	n := len(call.Args)
 	world := func(w string) (*t3bind, error) { return c.world(sc, w) }
+	if c.t7 { // [t7] bbolt.Open, bm.RunOptimize
+		if eff, err := c.t7effect(call, sc); eff != nil || err != nil {
+			return eff, err
+		}
+	}
 	// roaring.New()
 	if c.pkgSel(call.Fun, sc, "roaring", "github.com/RoaringBitmap/roaring", "New") && n == 0 {
 		hp, err := world("$hp")
@@ -1458,7 +1484,7 @@ func (c *t3ctx) methodEffect(call *ast.CallExpr, s *ast.SelectorExpr, sc t3sc) (
 				t3out{kind: "world", b: hp}, t3out{kind: "res", typ: t3int}, t3out{kind: "res", typ: t3error}), nil
 		}
 	case "db":
-		bolt, err := world("$bolt")
+		bolt, err := world(t7boltOf(x.typ)) // [t7] was "$bolt"
 		if err != nil {
 			return nil, err
 		}
@@ -1469,14 +1495,14 @@ func (c *t3ctx) methodEffect(call *ast.CallExpr, s *ast.SelectorExpr, sc t3sc) (
 				return nil, err
 			}
 			return t3one(fmt.Sprintf("Go.T3.dbBegin %s %s %s", bolt.lean, x.text, w.text),
-				t3out{kind: "world", b: bolt}, t3out{kind: "res", typ: t3tx}, t3out{kind: "res", typ: t3error}), nil
+				t3out{kind: "world", b: bolt}, t3out{kind: "res", typ: t7in(t3tx, x.typ)}, t3out{kind: "res", typ: t3error}), nil // [t7] typ was t3tx
 		case m == "Close" && n == 0:
 			return t3one(fmt.Sprintf("Go.T3.dbClose %s %s", bolt.lean, x.text), t3out{kind: "world", b: bolt}, t3out{kind: "res", typ: t3error}), nil
 		case (m == "View" || m == "Update") && n == 1:
 			return c.txClosure(call, x, m, sc)
 		}
 	case "tx":
-		bolt, err := world("$bolt")
+		bolt, err := world(t7boltOf(x.typ)) // [t7] was "$bolt"
 		if err != nil {
 			return nil, err
 		}
@@ -1487,13 +1513,13 @@ func (c *t3ctx) methodEffect(call *ast.CallExpr, s *ast.SelectorExpr, sc t3sc) (
 				return nil, err
 			}
 			return t3one(fmt.Sprintf("Go.T3.txCreateBucketIfNotExists %s %s %s", bolt.lean, x.text, nm.text),
-				t3out{kind: "world", b: bolt}, t3out{kind: "res", typ: t3bucket}, t3out{kind: "res", typ: t3error}), nil
+				t3out{kind: "world", b: bolt}, t3out{kind: "res", typ: t7in(t3bucket, x.typ)}, t3out{kind: "res", typ: t3error}), nil // [t7] typ was t3bucket
 		case (m == "Commit" || m == "Rollback") && n == 0:
 			return t3one(fmt.Sprintf("Go.T3.tx%s %s %s", m, bolt.lean, x.text), t3out{kind: "world", b: bolt}, t3out{kind: "res", typ: t3error}), nil
 		}
 	case "bucket":
 		if m == "Put" && n == 2 {
-			bolt, err := world("$bolt")
+			bolt, err := world(t7boltOf(x.typ)) // [t7] was "$bolt"
 			if err != nil {
 				return nil, err
 			}
@@ -1508,7 +1534,7 @@ func (c *t3ctx) methodEffect(call *ast.CallExpr, s *ast.SelectorExpr, sc t3sc) (
 			return t3one(fmt.Sprintf("Go.T3.bucketPut %s %s %s %s", bolt.lean, x.text, k.text, v.text), t3out{kind: "world", b: bolt}, t3out{kind: "res", typ: t3error}), nil
 		}
 	case "cursor":
-		bolt, err := world("$bolt")
+		bolt, err := world(t7boltOf(x.typ)) // [t7] was "$bolt"
 		if err != nil {
 			return nil, err
 		}
@@ -1565,6 +1591,16 @@ func (c *t3ctx) sigCall(sig *t3sig, recv ast.Expr, args []ast.Expr, sc t3sc) (*t
 		}
 		c.usedX = true
 		parts = append(parts, "X")
+	}
+	for _, r := range sig.rngs { // [t7] the enumeration of a map the callee ranges over is handed through
+		if !c.t7 {
+			return nil, lostf("%s ranges over a map: callers cannot supply the enumeration", sig.lean)
+		}
+		if !c.rngSeen[r.lean] {
+			c.rngSeen[r.lean] = true
+			c.rngs = append(c.rngs, r)
+		}
+		parts = append(parts, r.lean)
 	}
 	for _, w := range sig.worlds {
 		b, err := c.world(sc, w)
@@ -1628,7 +1664,7 @@ func (c *t3ctx) txClosure(call *ast.CallExpr, db t3v, m string, sc t3sc) (*t3eff
 		fl.Type.Results.NumFields() != 1 || c.tr.src(fl.Type.Results.List[0].Type) != "error" {
 		return nil, lostf("db.%s: the function literal is not func(tx *bbolt.Tx) error", m)
 	}
-	bolt, err := c.world(sc, "$bolt")
+	bolt, err := c.world(sc, t7boltOf(db.typ)) // [t7] was "$bolt"
 	if err != nil {
 		return nil, err
 	}
@@ -1637,7 +1673,7 @@ func (c *t3ctx) txClosure(call *ast.CallExpr, db t3v, m string, sc t3sc) (*t3eff
 	inner.wrapRet = nil
 	c.nextSc++
 	inner.scope = c.nextSc
-	inner, txb, err := c.declare(inner, fl.Type.Params.List[0].Names[0].Name, t3tx)
+	inner, txb, err := c.declare(inner, fl.Type.Params.List[0].Names[0].Name, t7in(t3tx, db.typ)) // [t7] typ was t3tx
 	if err != nil {
 		return nil, err
 	}
@@ -1697,6 +1733,9 @@ func (c *t3ctx) bind(eff *t3eff, tgts []t3tgt, sc t3sc) ([]string, t3sc, error) 
 			c.touch(o.b)
 			parts = append(parts, o.b.lean)
 			useful = true
+			if o.w != "" { // [t7] bbolt.Open brings the world into being
+				sc.en = sc.en.with(o.w, o.b)
+			}
 		case "pat":
 			for _, b := range o.binds {
 				c.touch(b)
@@ -1864,6 +1903,13 @@ func (c *t3ctx) stmts(list []ast.Stmt, sc t3sc, k t3cont) ([]string, error) {
 		return k(sc)
 	}
 	s := list[0]
+	if rs, ok := s.(*ast.ReturnStmt); ok && c.t7 { // [t7] `return f(…)` with an effectful call: `r… := f(…); return r…`
+		if repl, err := c.t7returnCall(rs, sc); err != nil {
+			return nil, err
+		} else if repl != nil {
+			return c.stmts(append(repl, list[1:]...), sc, k)
+		}
+	}
 	// accesses to the fields of a mutex-guarded receiver are recorded against its mutex
 	var guardOf []ast.Node
 	switch s := s.(type) {
@@ -2078,6 +2124,10 @@ func (c *t3ctx) stmtsNoGuard(list []ast.Stmt, sc t3sc, k t3cont) ([]string, erro
 		return c.rangeStmt(s, sc, outer)
 	case *ast.ForStmt:
 		return c.forStmt(s, sc, outer)
+	case *ast.GoStmt: // [t7]
+		if c.t7 {
+			return c.t7goStmt(s, sc, outer)
+		}
 	}
 	return nil, lostf("statement %s", c.tr.src(s))
 }
@@ -2103,6 +2153,9 @@ func (c *t3ctx) doReturn(s *ast.ReturnStmt, sc t3sc) ([]string, error) {
 		if b.lean == "go_result" {
 			return nil, lostf("a variable is called go_result")
 		}
+	}
+	if err := c.t7openedAtReturn(fr, sc); err != nil { // [t7] a world made by bbolt.Open must exist at every return
+		return nil, err
 	}
 	var lines []string
 	switch len(vals) {
@@ -2448,7 +2501,7 @@ func (c *t3ctx) forStmt(s *ast.ForStmt, sc t3sc, rest t3cont) ([]string, error) 
 	if cur.typ.kind != "cursor" {
 		return nil, lostf("post statement %s does not advance a cursor", c.tr.src(s.Post))
 	}
-	bolt, err := c.world(initSc, "$bolt")
+	bolt, err := c.world(initSc, t7boltOf(cur.typ)) // [t7] was "$bolt"
 	if err != nil {
 		return nil, err
 	}
@@ -2612,6 +2665,10 @@ type t3target struct {
 	recvOut         bool
 	litResult       bool // the function is `return func(idx *Index) error {…}`: translate that function literal
 	doc             string
+	t7              bool     // [t7]
+	t7dual          bool     // [t7]
+	opened          []string // [t7] worlds (among `worlds`) that are not parameters: bbolt.Open creates them
+	dbWorlds        []string // [t7] the worlds of the parameters of type *bbolt.DB, in order
 }
 
 func (tr *translator) t3func(tg t3target) (string, *t3sig, error) {
@@ -2620,7 +2677,9 @@ func (tr *translator) t3func(tg t3target) (string, *t3sig, error) {
 		return "", nil, lostf("function %s not found in %s", tg.name, tg.rel)
 	}
 	c := &t3ctx{tr: tr, file: f, rel: tg.rel, mode: tg.mode, useH: tg.useH, useX: tg.useX, worlds: map[string]bool{},
-		consts: tr.pkgConsts(f), rngSeen: map[string]bool{}, lean: tg.lean}
+		consts: tr.pkgConsts(f), rngSeen: map[string]bool{}, lean: tg.lean,
+		t7: tg.t7, t7dual: tg.t7dual, t7opened: map[string]*t3bind{}} // [t7]
+	dbParamNo := 0 // [t7]
 	sc := t3sc{en: t3env{}}
 	c.nextSc++
 	sc.scope = c.nextSc
@@ -2631,6 +2690,11 @@ func (tr *translator) t3func(tg t3target) (string, *t3sig, error) {
 		c.worlds[w] = true
 		c.nextID++
 		b := &t3bind{lean: strings.TrimPrefix(w, "$"), typ: t3worldType[w], id: c.nextID, scope: sc.scope}
+		if t7contains(tg.opened, w) { // [t7] returned, but neither a parameter nor visible before bbolt.Open
+			c.t7opened[w] = b
+			fr.outs = append(fr.outs, b)
+			continue
+		}
 		sc.en = sc.en.with(w, b)
 		fr.outs = append(fr.outs, b)
 		params = append(params, fmt.Sprintf("(%s : %s)", b.lean, b.typ.lean))
@@ -2687,6 +2751,13 @@ func (tr *translator) t3func(tg t3target) (string, *t3sig, error) {
 				return "", nil, lostf("unnamed parameter")
 			}
 			for _, id := range fld.Names {
+				if t.kind == "db" && tg.dbWorlds != nil { // [t7] which database a *bbolt.DB parameter is, by position
+					if dbParamNo >= len(tg.dbWorlds) {
+						return "", nil, lostf("more *bbolt.DB parameters than databases")
+					}
+					t = t7typ(t3db, tg.dbWorlds[dbParamNo])
+					dbParamNo++
+				}
 				var b *t3bind
 				if sc, b, err = c.declare(sc, id.Name, t); err != nil {
 					return "", nil, err
@@ -2719,7 +2790,12 @@ func (tr *translator) t3func(tg t3target) (string, *t3sig, error) {
 	sig.results = fr.results
 	fr.retType = t3retType(fr)
 	sc.fr = fr
-	noEnd := func(t3sc) ([]string, error) { return nil, lostf("control reaches the end without a return") }
+	noEnd := func(end t3sc) ([]string, error) {
+		if c.t7 && len(fr.results) == 0 { // [t7] a function without results may fall off its end
+			return c.doReturn(&ast.ReturnStmt{}, end)
+		}
+		return nil, lostf("control reaches the end without a return")
+	}
 	var lines []string
 	mod, err := c.collect(func() error {
 		var err error
@@ -2762,7 +2838,7 @@ func (tr *translator) t3func(tg t3target) (string, *t3sig, error) {
 		b.WriteString("  " + l + "\n")
 	}
 	if len(c.rngs) != 0 {
-		sig = nil // callers cannot supply the enumeration of a map
+		sig.rngs = c.rngs // [t7] was `sig = nil`: callers outside translate_t7.go still cannot call it (see sigCall)
 	}
 	return b.String(), sig, nil
 }
@@ -2785,7 +2861,7 @@ func (tr *translator) translateT3(emit func(string, unit, error) bool, wrap func
 			doc: "`(*IndexWriter).getValueBitmap` of writer.go"},
 		{rel: "writer.go", recv: "IndexWriter", name: "AddRow", lean: "indexWriterAddRow", mode: "writer", useH: true, worlds: hp, recvOut: true,
 			doc: "`(*IndexWriter).AddRow` of writer.go; `values` is the list of the pairs of the map in the order `range` yields them"},
-		{rel: "writer.go", recv: "IndexWriter", name: "WriteToBoltDatabase", lean: "writeToBoltDatabase", mode: "writer", useX: true, worlds: bolt, recvOut: true,
+		{rel: "writer.go", recv: "IndexWriter", name: "WriteToBoltDatabase", lean: "writeToBoltDatabase", key: "IndexWriter.WriteToBoltDatabase" /* [t7] */, mode: "writer", useX: true, worlds: bolt, recvOut: true,
 			doc: "`(*IndexWriter).WriteToBoltDatabase` of writer.go; `rng_values` is the list of the pairs of `idx.values` in the order `range` yields them"},
 		{rel: "index.go", name: "newOnDemandColGetter", lean: "newOnDemandColGetter", key: "newOnDemandColGetter", mode: "open",
 			doc: "`newOnDemandColGetter` of index.go"},
@@ -2797,7 +2873,7 @@ func (tr *translator) translateT3(emit func(string, unit, error) bool, wrap func
 			doc: "`(*preloadedColGetter).GetCol` of index.go"},
 		{rel: "index.go", name: "WithPreloadedData", lean: "withPreloadedData", mode: "open", useX: true, worlds: bolt, litResult: true,
 			doc: "the `IndexOption` returned by `WithPreloadedData` of index.go"},
-		{rel: "index.go", name: "OpenIndexFromBoltDatabase", lean: "openIndexFromBoltDatabase", mode: "open", useX: true, worlds: bolt,
+		{rel: "index.go", name: "OpenIndexFromBoltDatabase", lean: "openIndexFromBoltDatabase", key: "OpenIndexFromBoltDatabase" /* [t7] */, mode: "open", useX: true, worlds: bolt,
 			doc: "`OpenIndexFromBoltDatabase` of index.go"},
 		{rel: "writer_big.go", recv: "BigIndexWriter", name: "AddRow", lean: "bigIndexWriterAddRow", mode: "writer", useH: true, worlds: bolt, recvOut: true,
 			doc: "`(*BigIndexWriter).AddRow` of writer_big.go; `bolt` is the temporary database"},
